@@ -1,0 +1,23 @@
+// Copyright (c) 2026, Daniel Martí <mvdan@mvdan.cc>
+// See LICENSE for licensing information
+
+//go:build verif
+
+package expand
+
+import "mvdan.cc/sh/v3/internal"
+
+// Verification hook H5: re-export the sparse array helpers of package internal,
+// which a module outside this repository cannot import.
+
+func VerifSetIndexedElem(list []string, indexes []int, k int, val string) ([]string, []int) {
+	return internal.SetIndexedElem(list, indexes, k, val)
+}
+
+func VerifDeleteIndexedElem(list []string, indexes []int, k int) ([]string, []int) {
+	return internal.DeleteIndexedElem(list, indexes, k)
+}
+
+func VerifCanonicalIndexes(indexes []int) []int { return internal.CanonicalIndexes(indexes) }
+
+func VerifIndexedMax(list []string, indexes []int) int { return internal.IndexedMax(list, indexes) }
